@@ -14,7 +14,12 @@ use serde_json::json;
 use std::collections::BTreeMap;
 
 fn lib_list(files: &[(String, String)]) -> Result<Vec<CliDiag>, String> {
-    let r = guarded(|| rva::run_editor_entry(MemReader::new(files), FILE));
+    // (a file may be included several times: like the CLI's reader, every delivery gets a fresh id)
+    let r = guarded(|| {
+        let mut rd = MemReader::new(files);
+        rd.reread = crate::rva::Reread::AllowFreshId;
+        rva::run_editor_entry(rd, FILE)
+    });
     let (_, diags) = r.map_err(|p| format!("{} {}", p.site(), p.msg))?;
     Ok(diags
         .iter()
@@ -307,7 +312,20 @@ pub fn run(ctx: &Ctx) -> i32 {
                     ("clean", print(&g.prog, &Style::random(&mut rng), &mut Rng::new(1)).text)
                 }
             };
-            let files = if rng.chance(0.4) { split_into_files(&text, &mut rng, 3) } else { vec![(FILE.to_string(), text)] };
+            let files = match rng.below(10) {
+                0..=2 => split_into_files(&text, &mut rng, 3),
+                3 | 4 => {
+                    // an include tree in which one snippet file is included two or three times
+                    match super::c15::add_shared_snippet(&text, &mut rng) {
+                        Some((t, sn, occ)) => {
+                            acc.count("file_sets_with_a_file_included_several_times", 1);
+                            super::c15::make_tree_with(&t, &mut rng, 2, Some((&sn, &occ))).files
+                        }
+                        None => vec![(FILE.to_string(), text)],
+                    }
+                }
+                _ => vec![(FILE.to_string(), text)],
+            };
             acc.note("file_set_kinds", format!("{kind}/{}", if files.len() > 1 { "multi-file" } else { "single-file" }));
             check_fileset(ctx, kind, &files, &mut rng, &mut acc);
             if k == 0 && shard == 0 {
